@@ -3,9 +3,12 @@
 Oracle 1 (conservation, needs no grammar): multiset of significant source tokens
 == multiset of tokens reachable in Parser.result (harness-owned walker).
 Oracle 2 (structure): tree isomorphic to R-SIEVE's generic (RFC 5228 §8.2) tree.
+Oracle 3 (entry points): parse(str) and parse_file give the tree parse(bytes) gives.
 """
 from __future__ import annotations
 
+import os
+import tempfile
 from collections import Counter
 
 from .. import pwork, rsieve
@@ -24,8 +27,10 @@ ASSUMPTIONS = [
     "an empty block and no block are not distinguished (sievelib's tree cannot)",
 ]
 FLOORS = {
-    "quick": {"accepted": 5000, "structure-compared": 5000, "accepted-rich": 1000},
-    "thorough": {"accepted": 100000, "structure-compared": 100000, "accepted-rich": 20000},
+    "quick": {"accepted": 5000, "structure-compared": 5000, "accepted-rich": 1000,
+              "entry-accepted:file": 1000, "entry-accepted-with-CR": 100},
+    "thorough": {"accepted": 100000, "structure-compared": 100000, "accepted-rich": 20000,
+                 "entry-accepted:file": 10000, "entry-accepted-with-CR": 1000},
 }
 SHARD_TIMEOUT = {"quick": 600, "thorough": 3000}
 
@@ -128,11 +133,54 @@ def _rich(nf):
     return n
 
 
-SHARED = {"parser": None, "prev": None}
+SHARED = {"parser": None, "prev": None, "tmp": None, "n": 0}
+
+
+def _tree_or_verdict(o):
+    if o.verdict() is not True:
+        return ("verdict", str(o.verdict()))
+    try:
+        return ("tree", lab.nf_result(o.result))
+    except RecursionError:
+        return ("too-deep",)
+
+
+def check_entry_points(data, o, res):
+    """The tree must not depend on the public entry point the script came through:
+    parse(bytes) (reference), parse(str), parse_file(path)."""
+    ref = _tree_or_verdict(o)
+    if ref[0] == "too-deep":
+        return
+    runs = []
+    try:
+        runs.append(("str", lab.parse(data.decode("utf-8"))))
+    except UnicodeDecodeError:
+        pass
+    with open(SHARED["tmp"], "wb") as f:
+        f.write(data)
+    runs.append(("file", lab.parse(data, via_file=SHARED["tmp"])))
+    for via, o2 in runs:
+        got = _tree_or_verdict(o2)
+        res.count("entry:" + via)
+        if ref[0] == "tree":
+            res.count("entry-accepted:" + via)
+            if b"\r" in data:
+                res.count("entry-accepted-with-CR")
+        bad = got != ref and got[0] != "too-deep"
+        res.monitor("entry-point-same-tree", bad)
+        if bad:
+            res.violation({"oracle": "tree-depends-on-entry-point", "via": via,
+                           "bytes": ref[0], "other": got[0]},
+                          {"input": data, "via": via, "parse_bytes": repr(ref)[:300],
+                           "parse_%s" % via: repr(got)[:300]})
 
 
 def check_case(label, data, info, res: Result):
     o, viols, mode = evaluate(data)
+    SHARED["n"] += 1
+    if SHARED["tmp"] and (label in ("long", "replay") or SHARED["n"] % 16 == 0 or (
+            b"\r" in data and label != "tok" and o.verdict() is True)):
+        check_entry_points(data, o, res)
     if SHARED["parser"] is not None:
         # same input through a Parser reused across the whole shard: same tree expected
         o2 = lab.parse(data, parser=SHARED["parser"])
@@ -195,15 +243,28 @@ def check_case(label, data, info, res: Result):
 def run_shard(tier, shard, res: Result):
     from .c01 import reuse_applies
     SHARED["parser"] = lab.sl_parser.Parser() if reuse_applies(shard) else None
+    tmp = tempfile.NamedTemporaryFile(prefix="rv-c03-", suffix=".sieve", delete=False)
+    tmp.close()
+    SHARED["tmp"] = tmp.name
     n = 0
-    for label, data, info in pwork.cases(shard):
-        o = check_case(label, data, info, res)
-        n += 1
-        if o.verdict() is True and (n % 997 == 1 or shard["w"] != "tok" and n % 101 == 1):
-            res.sample({"workload": label, "input": data,
-                        "tree": repr(lab.nf_result(o.result))[:300]}, cap=3)
+    try:
+        for label, data, info in pwork.cases(shard):
+            o = check_case(label, data, info, res)
+            n += 1
+            if o.verdict() is True and (n % 997 == 1 or shard["w"] != "tok" and n % 101 == 1):
+                res.sample({"workload": label, "input": data,
+                            "tree": repr(lab.nf_result(o.result))[:300]}, cap=3)
+    finally:
+        os.unlink(tmp.name)
+        SHARED["tmp"] = None
 
 
 def replay(witness, res: Result):
     from ..core import unjson_bytes
-    check_case("replay", unjson_bytes(witness["input"]), {}, res)
+    tmp = tempfile.NamedTemporaryFile(prefix="rv-c03-", suffix=".sieve", delete=False)
+    tmp.close()
+    SHARED["tmp"] = tmp.name
+    try:
+        check_case("replay", unjson_bytes(witness["input"]), {}, res)
+    finally:
+        os.unlink(tmp.name)
